@@ -24,13 +24,18 @@ import vlib
 PID = "C13"
 LOCKED_AS_CODED = True        # do DataReport / HTMLReport guard their shared state? (pinned commit: no; yes since fix e858ac5)
 TRUNCATING_AS_CODED = False   # ranking comparator int(b.Outcome - a.Outcome) (pinned commit); cmp.Compare since fix 518b6a5
+TWO_SECTION_END_AS_CODED = True   # HTMLReport.AssetEnd: one critical section takes the results, a second records the best one
+STALE_BEST_AS_CODED = False       # variant: the list of best results is read in the first section (lost update when calls overlap)
 
 
-def bt_cfg(names, missing, ns, w, locked, extra):
+def bt_cfg(names, missing, ns, w, locked, extra, stale=None):
+    stale = STALE_BEST_AS_CODED if stale is None else stale
     return ('CONSTANTS Names <- MCNames Missing = {%s} NS = %d W = %d Locked = %s Truncating = %s Outcomes = {0, 6, 12, 30}\n'
+            ' TwoSectionEnd = %s StaleBest = %s\n'
             'SPECIFICATION Spec\nCHECK_DEADLOCK FALSE\n%s' % (
                 ", ".join('"%s"' % n for n in missing), ns, w,
-                "TRUE" if locked else "FALSE", "TRUE" if TRUNCATING_AS_CODED else "FALSE", extra))
+                "TRUE" if locked else "FALSE", "TRUE" if TRUNCATING_AS_CODED else "FALSE",
+                "TRUE" if TWO_SECTION_END_AS_CODED else "FALSE", "TRUE" if stale else "FALSE", extra))
 
 
 def bt_run(names, cfg, base="Backtest", more=None, extra_defs="", **kw):
@@ -61,6 +66,13 @@ def main():
         trans += r.generated
         if r.violation:
             machinery.append("spec/Backtest.tla %s: %s violated" % ((names, missing, ns, w), r.violation))
+    # the other variant of AssetEnd's second critical section must be refuted by the model (else the distinction is vacuous)
+    rs = bt_run(["a", "b"], bt_cfg(["a", "b"], [], 1, 2, True, "INVARIANTS SameForAnyW\n", stale=not STALE_BEST_AS_CODED), workers=4, timeout=600)
+    states += rs.distinct
+    trans += rs.generated
+    stale_refuted = rs.violation == "SameForAnyW"
+    if STALE_BEST_AS_CODED == stale_refuted:
+        machinery.append("spec/Backtest.tla: the StaleBest variant is %s refuted by SameForAnyW" % ("" if stale_refuted else "not"))
     r = bt_run(["a", "b"], bt_cfg(["a", "b"], [], 2, 2, LOCKED_AS_CODED, "INVARIANTS NoDataRace\n"), workers=4, timeout=600)
     states += r.distinct
     trans += r.generated
